@@ -228,3 +228,8 @@ def run(prog: Program, ctx: Ctx) -> None:  # noqa: PLR0912,PLR0915
     from sa.importrules import importfrom_table
 
     importfrom_table(prog, ctx, "R8")
+
+    # ------------------------------------------------------------------ R10 wildcard imports: the static side binds what run time binds
+    from sa.importrules import wildcard_table
+
+    wildcard_table(prog, ctx, "R10")
